@@ -238,6 +238,10 @@ structure Trace {fs : Files} {lines : List Str} {a : Assembly} (st : Stages fs l
   s3 : Stmt
   s4 : Stmt
   sf : Stmt
+  /-- (batch 8) the statement after `fitWidth`, before the FCB / FDB lists are evaluated -/
+  sw : Stmt
+  /-- (batch 8) the statements after `fixAll`, before the FCB / FDB lists are evaluated -/
+  x5 : List Stmt
   h0 : st.ss0[i]? = some s0
   parsed : Parsed s0
   hres : resolveOperand s0.operand s0.row st.t = .ok o
@@ -249,21 +253,28 @@ structure Trace {fs : Files} {lines : List Str} {a : Assembly} (st : Stages fs l
   h4 : st.ss4[i]? = some s4
   addr : AddrRel s3 s4
   hfix : fixOne st.ss4 i s4 = .ok sf
-  hfit : fitWidth sf = .ok s
+  /-- STATEMENT CHANGED in batch 8: `fitWidth` gives `sw`, the final statement is `evalList1` of it (`hlist`) -/
+  hfit : fitWidth sf = .ok sw
+  hx5 : fixAll st.ss4 0 st.ss4 = .ok x5
+  hl5 : evalLists st.t x5 x5 = .ok a.stmts
+  hw5 : x5[i]? = some sw
+  hlist : evalList1 st.t x5 sw = .ok s
 
 theorem Stages.trace {fs : Files} {lines : List Str} {a : Assembly} (st : Stages fs lines a)
     {i : Nat} {s : Stmt} (hs : a.stmts[i]? = some s) : Nonempty (Trace st i s) := by
-  obtain ⟨s4, hs4, _⟩ := (fixAll_pw st.hfix).get' hs
-  obtain ⟨sf, s', hs', hfix, hfit⟩ := (fixAll_ok2 st.hfix).2 i s4 hs4
-  rw [hs] at hs'; cases hs'
+  obtain ⟨x5, hx5, hl5⟩ := st.fix_split
+  obtain ⟨sw, hsw, hlist⟩ := evalLists_get hl5 hs
+  obtain ⟨s4, hs4, _⟩ := (fixAll_pw hx5).get' hsw
+  obtain ⟨sf, s', hs', hfix, hfit⟩ := (fixAll_ok2 hx5).2 i s4 hs4
+  rw [hsw] at hs'; cases hs'
   rw [Nat.zero_add] at hfix
   obtain ⟨s3, hs3, haddr⟩ := (assignAddrs_pw st.haddr).get' hs4
   obtain ⟨s2, hs2, hpcr⟩ := (pcrLoop_pw _ _ st.hpcr).get' hs3
   have hfx := (pcrLoop_fixSame _ _ st.hpcr).2 i s2 s3 hs2 hs3
   obtain ⟨s1, hs1, p, htr, rfl⟩ := (translateAll_pw st.htranslate).get' hs2
   obtain ⟨s0, hs0, o, hres, rfl⟩ := (resolveAll_pw st.hresolve).get' hs1
-  exact ⟨⟨s0, o, p, s3, s4, sf, hs0, expand_parsed st.hparse st.hexpand s0 (List.mem_of_getElem? hs0), hres, htr,
-    hs2, hs3, hpcr, hfx, hs4, haddr, hfix, hfit⟩⟩
+  exact ⟨⟨s0, o, p, s3, s4, sf, sw, x5, hs0, expand_parsed st.hparse st.hexpand s0 (List.mem_of_getElem? hs0), hres, htr,
+    hs2, hs3, hpcr, hfx, hs4, haddr, hfix, hfit, hx5, hl5, hsw, hlist⟩⟩
 
 namespace Trace
 variable {fs : Files} {lines : List Str} {a : Assembly} {st : Stages fs lines a} {i : Nat} {s : Stmt}
@@ -273,22 +284,26 @@ theorem row_eq (tr : Trace st i s) : s.row = tr.s0.row := by
   obtain ⟨_, h4⟩ := tr.addr
   obtain ⟨_, hf⟩ := fixOne_same tr.hfix
   obtain ⟨_, hw⟩ := fitWidth_same tr.hfit
+  obtain ⟨_, hl⟩ := evalList1_same tr.hlist
+  have e0 := congrArg Stmt.row hl
   have e1 := congrArg Stmt.row hw
   have e2 := congrArg Stmt.row hf
   have e3 := congrArg Stmt.row h4
   have e4 := congrArg Stmt.row h3
-  exact e1.trans (e2.trans (e3.trans e4))
+  exact e0.trans (e1.trans (e2.trans (e3.trans e4)))
 
 theorem operand_eq (tr : Trace st i s) : s.operand = tr.o := by
   obtain ⟨_, _, _, _, _, h3⟩ := tr.pcr
   obtain ⟨_, h4⟩ := tr.addr
   obtain ⟨_, hf⟩ := fixOne_same tr.hfix
   obtain ⟨_, hw⟩ := fitWidth_same tr.hfit
+  obtain ⟨_, hl⟩ := evalList1_same tr.hlist
+  have e0 := congrArg Stmt.operand hl
   have e1 := congrArg Stmt.operand hw
   have e2 := congrArg Stmt.operand hf
   have e3 := congrArg Stmt.operand h4
   have e4 := congrArg Stmt.operand h3
-  exact e1.trans (e2.trans (e3.trans e4))
+  exact e0.trans (e1.trans (e2.trans (e3.trans e4)))
 
 theorem row_mem (tr : Trace st i s) : s.row ∈ Gen.instructions := by
   rw [tr.row_eq]; exact tr.parsed.1
